@@ -34,6 +34,28 @@ CHECKS = {
     "C06": (MC, PROP_T + "; every ground tuple and every box collapsed to a point by one call",
             "every ground tuple of the value cube and every enumerated box that one call collapses to a point is judged by the "
             "independent relation predicate", BASE_TRUST, "3 C06, 2.3", "PropMC"),
+    "C07": (MC, PROP_T + " + explicit-state search over the real engine (EngineMC) with a reference frame stack",
+            "(a) every 'entailed' answer of the 12 types that can give one is checked against the truth table of the returned box; "
+            "(b) every reachable search state (all variable orders, 4 value heuristics, BC and shaving) of the small problems of U: "
+            "disabled constraints are checked by brute force on the current box, every backtrack against the reference frame stack",
+            BASE_TRUST, "3 C07, 2.4", "PropMC+EngineMC"),
+    "C08": (MC, "explicit-state search over (domains, flags, queue) with pop_propagator replaced by a scheduler: all wake-up orders of "
+                "every pass in every reachable search state; trigger sufficiency by exhaustive narrowing enumeration (PropMC)",
+            "every wake-up order of the propagation queue is explored, each transition being one real execution of the real "
+            "bound_consistency_algorithm body; terminal states are checked for shrink-only, re-execution fixpoint and (all-exact-BC) "
+            "unique greatest fixpoint; the real pop order is replayed in every pass and must be an explored path",
+            BASE_TRUST, "3 C08, 2.4", "EngineMC+PropMC"),
+    "C09": (MC, "explicit-state search over operation sequences of the real value heuristics / backtrack in lock-step with a reference frame stack (StackMC)",
+            "all sequences of branch(d,h) / backtrack / disable up to a depth from every domain shape, 5 value heuristics (every "
+            "in-contract cost table), compared transition by transition with a reference model", BASE_TRUST, "3 C09, 2.4", "StackMC"),
+    "C10": (MC, "explicit-state search over the real engine; differential run of real shaving vs real BC on clones of every state (EngineMC)",
+            "in every reachable state where a consistency algorithm is invoked, shaving and BC are run on clones: containment, no "
+            "solution lost, stack height and lower levels untouched, status soundness; plus whole-solver differential runs",
+            BASE_TRUST, "3 C10, 2.4", "EngineMC"),
+    "C11": (MC, "stateless deviation-bounded exploration of all merges of the real workers' message streams against the real parent (SchedMC: fake Process/Queue)",
+            "every interleaving of the workers' real message streams (plus spurious timeouts / late termination observations up to a "
+            "deviation bound, both pickling extremes of the statistics array) is replayed against the real MultiprocessingSolver",
+            BASE_TRUST + "; workers are deterministic and share nothing but the queue (checked), per-producer FIFO", "3 C11, 2.6", "SchedMC"),
     "C12": (MC, "exhaustive enumeration of Problem.split over domains x k x layouts; partition laws + find_all of every part",
             "all [a,b] x k x variable position / sharing layouts up to the bound; deep comparison of original and parts; the "
             "disjoint union of the parts' solutions equals the original solution set", BASE_TRUST, "3 C12", "SplitMC"),
@@ -46,9 +68,18 @@ CHECKS = {
             BASE_TRUST, "3 C17", "SolveMC"),
 }
 
+CHECKS["C18"] = ("fault_enumeration", "exhaustive enumeration of (worker, crash point) fault plans x all schedules under SchedMC; deadlock / bounded-polling detection",
+                 "every worker x every crash point (before the first message, between two solutions, just before the completion marker) "
+                 "x every schedule up to the deviation bound is replayed against the real parent; a blocking read nothing can satisfy "
+                 "is reported as a hang; thorough adds real-process replays", BASE_TRUST + "; bounded time is decided in virtual time",
+                 "3 C18, 2.6", "SchedMC")
+
 NOT_YET = {}
 
 ENGINES = [
+    {"name": "EngineMC", "path": "mc/enginemc.py", "kind_free_text": "explicit-state search over the solver arrays of the real engine: real consistency algorithms, value heuristics and backtrack as transitions, variable choice nondeterministic, visited-set on a canonical form"},
+    {"name": "StackMC", "path": "mc/props/C09.py", "kind_free_text": "explicit-state search over operation sequences of the real choice-point stack in lock-step with a reference frame stack"},
+    {"name": "SchedMC", "path": "mc/schedmc.py", "kind_free_text": "controlled scheduler + fault injector for the real MultiprocessingSolver parent (fake Process/Queue), stateless deviation-bounded exploration with prefix replay"},
     {"name": "SolveMC", "path": "mc/solvemc.py", "kind_free_text": "exhaustive enumeration of a finite problem universe x solver configurations through the public API of the real solver, monitors interposed on every engine seam"},
     {"name": "SplitMC", "path": "mc/props/C12.py", "kind_free_text": "exhaustive enumeration of the pure function Problem.split"},
     {"name": "PropMC", "path": "mc/propmc.py", "kind_free_text": "exhaustive input enumeration of single filtering calls of the real propagators against a truth-table oracle"},
